@@ -23,7 +23,7 @@ ID = "C10"
 COQ_DIR = "C10"
 RUN_MOD = "C10.Run"
 MODEL_TARGETS = ["C10/Run.vo"]
-PROOF_TARGETS = ["C10/SgrLemmas.vo", "C10/Lemmas.vo", "C10/LemmasInv.vo", "C10/LemmasRun.vo", "C10/LemmasPure.vo", "C10/LemmasTop.vo", "C10/LemmasSub.vo", "C10/LemmasWit.vo"]
+PROOF_TARGETS = ["C10/SgrLemmas.vo", "C10/Lemmas.vo", "C10/LemmasInv.vo", "C10/LemmasRun.vo", "C10/LemmasPure.vo", "C10/LemmasTop.vo", "C10/LemmasSub.vo", "C10/LemmasWit.vo", "C10/LemmasLayout.vo"]
 PROPS = ["C10/Props.v"]
 ALLOWED_AXIOMS = []
 IMPL_TIMEOUT = 60.0
@@ -559,6 +559,8 @@ def _rand_table(rng, nfts, kind="table"):
     if kind == "table" and rng.random() < 0.2:
         fmt += ";" + rng.choice(["1:1", "*", "2:0"])
     spec = {"k": kind, "fields": fields, "ft": ftmap, "fmt": fmt if (kind == "rec" or rng.random() < 0.8) else None}
+    if rng.random() < 0.15:
+        spec["gft"] = rng.choice([["id"], ["nm"], ["id", "nm"]])
     if kind == "rec":
         spec["rec"] = recs[0]
     else:
@@ -891,6 +893,8 @@ def _threshold_table(rng, kind="table"):
     if kind == "table" and rng.random() < 0.35:
         fmt += ";" + rng.choice(["1:1", "*", "2:0", "0:1", "1:2"])
     spec = {"k": kind, "fields": fields, "ft": ftmap, "fmt": fmt}
+    if rng.random() < 0.4:
+        spec["gft"] = rng.choice([["id"], ["id", "kw"], ["nm"], ["id", "nm", "kw"]])
     if kind == "rec":
         spec["rec"] = recs[0]
     else:
@@ -965,6 +969,10 @@ def _threshold_case(rng, what=None):
         ops += [["setglobal", 0], ["newh", 0, 2], ["help", 0, 0], ["newh", 1, 1], ["help", 1, 0],
                 ["setglobal", 1], ["newh", 2, rng.choice([1, 2])], ["help", 2, 0]]
         return {"fts": fts, "objs": objs, "ops": ops, "thr": 1}
+    if rng.random() < 0.4:
+        # a different GLOBAL configuration is in place while everything is rendered under explicit ones: nothing of
+        # it may show (the reference renders with a pristine global state)
+        ops += [["newconf", 2, rng.random() < 0.5, _all_colours(rng)], ["setglobal", 2]]
     plan = []
     for o in range(len(objs)):
         mode = lambda: 0 if objs[o]["k"] == "rec" else rng.choice([0, 0, 1, 2, 3])
@@ -1161,6 +1169,15 @@ class _World:
             return _mk_enum(spec)
         return self.probe.enum(i, spec)
 
+    def _field_types(self, s):
+        """enum field types by index; "gft": fields printed through a plain FieldType() -- the base class, whose
+        get_cell_text_len builds the cell (universal path) instead of measuring str(value)"""
+        from ak.ppobj import FieldType
+        d = {f: self.fts[i] for f, i in s["ft"].items()}
+        for f in s.get("gft", []):
+            d[f] = FieldType()
+        return d
+
     def _obj(self, s):
         k = s["k"]
         if k == "json":
@@ -1171,11 +1188,11 @@ class _World:
         if k == "table":
             from ak.ppobj import PPTable
             t = PPTable([tuple(r) for r in s["recs"]], fields=list(s["fields"]), fmt=s["fmt"], header=s["header"], footer=s["footer"],
-                        fields_types={f: self.fts[i] for f, i in s["ft"].items()}, fields_titles=s["titles"])
+                        fields_types=self._field_types(s), fields_titles=s["titles"])
             return ("table", PPTable.TablePalette, lambda **kw: t.ch_text(**kw))
         if k == "rec":
             from ak.ppobj import PPRecordFmt
-            f = PPRecordFmt(s["fmt"], fields=list(s["fields"]), fields_types={f: self.fts[i] for f, i in s["ft"].items()})
+            f = PPRecordFmt(s["fmt"], fields=list(s["fields"]), fields_types=self._field_types(s))
             rec = tuple(s["rec"])
             return ("rec", PPRecordFmt.PPRecordPalette, lambda **kw: f(rec, **kw))
         if k == "ghist":
@@ -1396,6 +1413,16 @@ def _c_jv(j):
     return f"JL {SX.clist('(' + _c_jv(x) + ')' for x in j[1])}"
 
 
+def _measures(r, kind):
+    """what a user can measure on a result object besides printing it: len(), plain_text(), fixed_len (cut and
+    padded), format with a width, a slice -- all defined on VISIBLE characters"""
+    if kind == "rec":
+        r = r.ch_text()
+    n = len(r)
+    return [str(n), r.plain_text(), str(r.fixed_len(max(n - 3, 0))), str(r.fixed_len(n + 3)) + "|", format(r, ">%d" % (n + 2)),
+            format(r, "_^%d" % (n + 5)), str(r[1:-1]), str(r[-4:])]
+
+
 def _consume(r, mode, kind):
     from ak.color import CHText
     if kind == "rec":
@@ -1485,6 +1512,11 @@ def _reference(case, i, op, snap, ex, klasses):
         w = _World(case)
         kind, K, call = w.objs[op[1]]
         out["ref_nc"] = _consume(call(colors_conf=_mk_conf(snap["conf"]), no_color=True), 0, kind)[0]
+        try:
+            out["ref_m"] = _measures(call(colors_conf=_mk_conf(snap["conf"]), no_color=op[3]), kind)
+            out["ref_nc_m"] = _measures(call(colors_conf=_mk_conf(snap["conf"]), no_color=True), kind)
+        except Exception as e:  # noqa
+            out["ref_m"], out["ref_nc_m"] = ["raises " + SX.exc_name(e)], []
     else:
         level = _hlevel(case, op[1])
         color.set_global_colors_config(_mk_conf(snap["conf"]))
@@ -1814,6 +1846,10 @@ def oracle(case, obs):
             out.append(("esc-in-no-color", f"{where}: no_color rendering contains an escape character: {ref_nc!r}"))
         if SEQ_RE.sub("", ref) != ref_nc:
             out.append(("layout-differs", f"{where}: coloured rendering without escape sequences {SEQ_RE.sub('', ref)!r} is not the no_color rendering {ref_nc!r}"))
+        if "ref_m" in rec and [SEQ_RE.sub("", x) for x in rec["ref_m"]] != rec["ref_nc_m"]:
+            names = ["len()", "plain_text()", "fixed_len(len-3)", "fixed_len(len+3)", "format '>len+2'", "format '_^len+5'", "[1:-1]", "[-4:]"]
+            bad = [nm for nm, a, b in zip(names, rec["ref_m"], rec["ref_nc_m"] + [None] * 8) if SEQ_RE.sub("", a) != b]
+            out.append(("layout-differs", f"{where}: measuring the coloured result and the no_color result gives different visible texts for {bad or rec['ref_m'][:1]}"))
         for t in texts:
             if nocolor and ESC in t:
                 out.append(("esc-in-no-color", f"{where}: no_color rendering contains an escape character: {t!r}"))
